@@ -1,0 +1,235 @@
+//go:build verif
+
+// Contracts for the fvc verification-condition generator in /verif (comment-only file).
+// C05: requests are isolated from each other despite context pooling.
+
+package fiber
+
+//@ props C05
+
+// ---------------------------------------------------------------------------------------------
+// What a pooled object may carry
+// ---------------------------------------------------------------------------------------------
+
+// A Redirect in redirectPool carries nothing of its previous user.
+//@ macro redirectClean(r) = r.status == 302 && len(r.messages) == 0 && r.c == nil
+
+// A DefaultCtx in app.pool: no route, request, binder, redirect, flash messages or view bindings of the
+// request it served last. (values, path buffers, indices and the cached strings are overwritten by Reset or by
+// the next successful match before anything reads them - see Reset and Params.)
+//@ macro poolClean(c) = c.route == nil && c.fasthttp == nil && c.bind == nil && c.redirect == nil && len(c.flashMessages) == 0 && iszero(c.viewBindMap)
+
+// Structural invariant of a DefaultCtx: it knows its app, its req/res views point back to it, and the path and
+// detection-path buffers do not share storage. Proved: NewDefaultCtx establishes it, Reset and
+// configDependentPaths (the only code that assigns path/detectionPath) keep it. Assumed for what the pool hands
+// out (it cannot be re-proved at Put: handlers ran in between and the generator havocs the heap there; no code
+// outside NewDefaultCtx assigns app/req/res and handlers cannot reach the unexported fields).
+//@ macro ctxWF(c) = c.app != nil && c.req != nil && c.res != nil && c.req.ctx == c && c.res.ctx == c && (arr(c.path) == 0 || arr(c.path) != arr(c.detectionPath))
+
+// Assumption about sync.Pool (the only one): Get returns New() or an object that was Put and not touched
+// since, and never hands one object to two users. Hence what Get returns satisfies whatever is proved at
+// every Put and of every New (obligations `pool-invariant` / `pool-new` below).
+//@ func @sync.(*Pool).Get assumed pure
+//@   ensures ctx-pool-invariant: typeis(result, *DefaultCtx) ==> as(result, *DefaultCtx) != nil && poolClean(as(result, *DefaultCtx)) && ctxWF(as(result, *DefaultCtx))
+//@   ensures redirect-pool-type: p == redirectPool ==> typeis(result, *Redirect)
+//@   ensures redirect-pool-invariant: typeis(result, *Redirect) ==> as(result, *Redirect) != nil && redirectClean(as(result, *Redirect))
+
+// ---------------------------------------------------------------------------------------------
+// Redirect pool
+// ---------------------------------------------------------------------------------------------
+
+// redirectPool.New
+//@ func init$3
+//@   ensures pool-new: typeis(result, *Redirect) && redirectClean(as(result, *Redirect))
+
+//@ func (*Redirect).release
+//@   modifies r.status, r.messages, r.c
+//@   ensures pool-clean: redirectClean(r)
+
+//@ func ReleaseRedirect
+//@   modifies r.status, r.messages, r.c
+//@   atcall @sync.(*Pool).Put: pool-invariant: redirectClean(r)
+//@   ensures pool-clean: redirectClean(r)
+
+//@ func AcquireRedirect
+//@   pure
+//@   ensures clean: result != nil && redirectClean(result)
+
+// c.Redirect(): the redirect object of THIS context; the first call of a request gets a clean one.
+//@ func (*DefaultCtx).Redirect
+//@   requires own-redirect: c.redirect != nil ==> c.redirect.c == c
+//@   modifies c.redirect, Redirect.c
+//@   ensures own: result != nil && result == c.redirect && result.c == c
+//@   ensures kept: old(c.redirect) != nil ==> result == old(c.redirect)
+//@   ensures first-is-clean: old(c.redirect) == nil ==> result.status == 302 && len(result.messages) == 0
+
+// c.Bind(): the binder of THIS context; the first call of a request gets a new one with the default
+// error-handling mode (WithAutoHandling of an earlier request does not stick).
+//@ func (*DefaultCtx).Bind
+//@   requires own-bind: c.bind != nil ==> typeis(c.bind.ctx, *DefaultCtx) && as(c.bind.ctx, *DefaultCtx) == c
+//@   modifies c.bind
+//@   ensures own: result != nil && result == c.bind && typeis(result.ctx, *DefaultCtx) && as(result.ctx, *DefaultCtx) == c
+//@   ensures kept: old(c.bind) != nil ==> result == old(c.bind)
+//@   ensures first-is-default: old(c.bind) == nil ==> result.dontHandleErrs && !old(allocated(result))
+
+// ---------------------------------------------------------------------------------------------
+// Context pool: what Reset must (re)compute for the new request
+// ---------------------------------------------------------------------------------------------
+
+// The three path views are functions of the request's original path and the app configuration only.
+//@ fn foldCase(p string, caseSensitive bool) string = ite(caseSensitive, p, lower(p))
+//@ fn trimmedOf(d string, r string) bool = len(r) <= len(d) && r == d[:len(r)] && (len(r) > 0 ==> r[len(r)-1] != '/') && forall(k, len(r), len(d), d[k] == '/')
+//@ fn hash3(s string) int = ite(len(s) >= 3, bitor(bitor(s[0] * 65536, s[1] * 256), s[2]), 0)
+//@ fn trimmedOrSame(d string, r string) bool = ite(len(d) > 1 && d[len(d)-1] == '/', trimmedOf(d, r), r == d)
+//@ macro pathsFromConfig(c) = (!c.app.config.UnescapePath ==> str(c.path) == c.pathOriginal) && (c.app.config.UnescapePath ==> str(c.path) == unquoted(c.pathOriginal)) &&
+//@ ..  (c.app.config.StrictRouting ==> str(c.detectionPath) == foldCase(str(c.path), c.app.config.CaseSensitive)) &&
+//@ ..  (!c.app.config.StrictRouting ==> trimmedOrSame(foldCase(str(c.path), c.app.config.CaseSensitive), str(c.detectionPath))) &&
+//@ ..  c.treePathHash == hash3(str(c.detectionPath))
+
+// Lemma (follows from the prelude's definitions of idx and b2s): the i-th byte of str(s) is the element s[i].
+//@ smt (assert (forall ((m (Array Int Int)) (s Slc) (i Int)) (! (=> (and (<= 0 i) (< i (slen s))) (= (at (b2s m (soff s) (slen s)) i) (select m (idx s i)))) :pattern ((at (b2s m (soff s) (slen s)) i)))))
+
+// configDependentPaths: the only writer of path/detectionPath/treePathHash. The atcall clauses are the
+// intermediate facts (what is decoded / folded is a copy of THIS request's path, in the context's own buffer).
+//@ func (*DefaultCtx).configDependentPaths
+//@   requires wf: ctxWF(c)
+//@   modifies c.path, c.detectionPath, c.treePathHash, elems(c.path), elems(c.detectionPath)
+//@   atcall @fasthttp.AppendUnquotedArg: decodes-this-path: str(src) == c.pathOriginal
+//@   atcall @utils.ToLowerBytes: lowers-own-buffer: arr(c.path) != arr(b) && b == c.detectionPath
+//@   atcall @utils.ToLowerBytes: folds-copy-of-path: str(b) == str(c.path)
+//@   ensures path-is-original: !c.app.config.UnescapePath ==> str(c.path) == c.pathOriginal
+//@   ensures path-is-unescaped-original: c.app.config.UnescapePath ==> str(c.path) == unquoted(c.pathOriginal)
+//@   ensures detection-same: c.app.config.CaseSensitive && c.app.config.StrictRouting ==> str(c.detectionPath) == str(c.path)
+//@   ensures detection-folded: !c.app.config.CaseSensitive && c.app.config.StrictRouting ==> str(c.detectionPath) == lower(str(c.path))
+//@   ensures detection-trimmed: !c.app.config.StrictRouting ==> trimmedOrSame(foldCase(str(c.path), c.app.config.CaseSensitive), str(c.detectionPath))
+//@   ensures hash-from-detection: c.treePathHash == hash3(str(c.detectionPath))
+//@   ensures buffers-allocated: (arr(c.path) == 0 || allocated(arr(c.path))) && (arr(c.detectionPath) == 0 || allocated(arr(c.detectionPath)))
+//@   ensures wf: arr(c.path) == 0 || arr(c.path) != arr(c.detectionPath)
+
+// Everything a handler can read from a DefaultCtx right after AcquireCtx(fctx), field by field (every field of
+// the struct is classified here or in ctxWF; a new field must be added to one of them):
+//   fasthttp                         the new request
+//   route, bind, redirect            none yet
+//   flashMessages, viewBindMap       empty
+//   indexRoute/indexHandler/matched  start of the chain
+//   baseURI                          not cached yet
+//   pathOriginal, methodInt          read from the new request
+//   path, detectionPath, treePathHash  functions of pathOriginal and the app configuration
+//   app, req, res                    shared wiring (ctxWF)
+//   values                           exempt: written by Route.match before Params can read a slot (see Params)
+//@ macro buffersAllocated(c) = (arr(c.path) == 0 || allocated(arr(c.path))) && (arr(c.detectionPath) == 0 || allocated(arr(c.detectionPath)))
+//@ macro resetState(c, fctx) = c.fasthttp == fctx && c.indexRoute == -1 && c.indexHandler == 0 && !c.matched && c.baseURI == "" &&
+//@ ..  c.pathOriginal == uriPathOriginal(reqURI(fctx.Request, epoch), epoch) &&
+//@ ..  c.methodInt == methodIdx(c.app, hdrMethod(fctx.Request.Header, epoch), epoch) &&
+//@ ..  pathsFromConfig(c)
+//@ macro freshFor(c, fctx) = resetState(c, fctx) && c.route == nil && c.bind == nil && c.redirect == nil && len(c.flashMessages) == 0 && iszero(c.viewBindMap)
+
+// The state in which the handler chain starts (call of app.next in the request handler): as after AcquireCtx,
+// except that the flash cookie of THIS request may have been decoded (into flashMessages, through the context's
+// own, otherwise clean, redirect object). Clause `context-state-from-this-request` of defaultRequestHandler.
+//@ macro chainEntry(c, fctx) = resetState(c, fctx) && c.route == nil && c.bind == nil && iszero(c.viewBindMap) &&
+//@ ..  (c.redirect == nil || (c.redirect.c == c && c.redirect.status == 302 && len(c.redirect.messages) == 0)) &&
+//@ ..  (len(c.flashMessages) == 0 || called((*Redirect).parseAndClearFlashMessages))
+
+//@ func (*DefaultCtx).Reset
+//@   requires from-pool: poolClean(c) && ctxWF(c)
+//@   requires [C06] wf-immutable: c.app.config.Immutable ==> copies(c.app.getString)
+//@   modifies c.indexRoute, c.indexHandler, c.matched, c.pathOriginal, c.methodInt, c.fasthttp, c.baseURI, c.path, c.detectionPath, c.treePathHash, elems(c.path), elems(c.detectionPath)
+//@   atcall (*App).methodInt: method-of-this-request: s == hdrMethod(fctx.Request.Header, epoch) && app == c.app
+//@   ensures fresh-for-this-request: freshFor(c, fctx)
+//@   ensures buffers-allocated: buffersAllocated(c)
+//@   ensures wf: ctxWF(c)
+//@   ensures [C06] immutable-path-original: c.app.config.Immutable ==> stable(c.pathOriginal)
+
+// A new context (what app.pool.New builds) satisfies the pool invariant.
+//@ func NewDefaultCtx
+//@   pure
+//@   ensures pool-new: result != nil && poolClean(result)
+//@   ensures wf: app != nil ==> ctxWF(result)
+//@   ensures own-app: result.app == app
+
+// release(): everything request-scoped that Reset does not overwrite is dropped before the context goes back
+// to the pool; the redirect object goes back to its own pool, scrubbed.
+//@ func (*DefaultCtx).release
+//@   requires own-redirect: c.redirect != nil ==> c.redirect.c == c
+//@   modifies c.route, c.fasthttp, c.bind, c.flashMessages, c.viewBindMap, c.redirect, Redirect.status, Redirect.messages, Redirect.c
+//@   atcall ReleaseRedirect: releases-own-redirect: r == c.redirect
+//@   ensures pool-clean: poolClean(c)
+//@   ensures redirect-scrubbed: old(c.redirect) != nil ==> redirectClean(old(c.redirect))
+// The decoder of flash cookies (redirectionMsgs.UnmarshalMsg) re-slices the backing array of c.flashMessages up
+// to its capacity and fills only the fields present in the input; for that to be harmless the slots behind
+// len must not hold the previous request's messages.
+//@   ensures no-stale-flash-behind-len: forall(k, 0, cap(c.flashMessages), c.flashMessages[:cap(c.flashMessages)][k].key == "" && c.flashMessages[:cap(c.flashMessages)][k].value == "")
+
+//@ func Ctx.release(recv) assumed
+//@   modifies DefaultCtx.route, DefaultCtx.fasthttp, DefaultCtx.bind, DefaultCtx.flashMessages, DefaultCtx.viewBindMap, DefaultCtx.redirect, Redirect.status, Redirect.messages, Redirect.c
+//@   ensures typeis(recv, *DefaultCtx) ==> poolClean(as(recv, *DefaultCtx))
+
+// ReleaseCtx: the Put side of the context pool.
+//@ func (*App).ReleaseCtx
+//@   atcall @sync.(*Pool).Put: pool-invariant: typeis(c, *DefaultCtx) ==> poolClean(as(c, *DefaultCtx))
+//@   atcall @sync.(*Pool).Put: released-first: called(Ctx.release) && x == c && p == app.pool
+
+// app.pool.New (closure of New) -> newCtx -> NewDefaultCtx (or the application's own constructor).
+//@ func (*App).newCtx
+//@   ensures pool-new: old(app.newCtxFunc) == nil ==> typeis(result, *DefaultCtx) && poolClean(as(result, *DefaultCtx))
+//@ func New$1
+//@   ensures pool-new: old(app.newCtxFunc) == nil ==> typeis(result, *DefaultCtx) && poolClean(as(result, *DefaultCtx))
+
+// Reset as seen through the Ctx interface (AcquireCtx calls it that way): for a DefaultCtx it is
+// (*DefaultCtx).Reset above (same frame, same postcondition). Custom contexts are outside this contract.
+//@ func Ctx.Reset(recv, fctx) assumed
+//@   requires from-pool: typeis(recv, *DefaultCtx) ==> poolClean(as(recv, *DefaultCtx)) && ctxWF(as(recv, *DefaultCtx))
+//@   modifies DefaultCtx.indexRoute, DefaultCtx.indexHandler, DefaultCtx.matched, DefaultCtx.pathOriginal, DefaultCtx.methodInt, DefaultCtx.fasthttp, DefaultCtx.baseURI, DefaultCtx.path, DefaultCtx.detectionPath, DefaultCtx.treePathHash, heap(E_uint8)
+//@   ensures typeis(recv, *DefaultCtx) ==> freshFor(as(recv, *DefaultCtx), fctx) && ctxWF(as(recv, *DefaultCtx)) && buffersAllocated(as(recv, *DefaultCtx))
+
+// AcquireCtx: the Get side. Whatever the pooled context served before, the caller gets a context whose
+// handler-visible state is that of a new context reset for fctx.
+// nosafety panic: the assertion `.(Ctx)` on the pool's content is interface-to-interface (not modelled); app.pool
+// only ever holds what New/ReleaseCtx put there, both typed Ctx.
+//@ func (*App).AcquireCtx
+//@   nosafety panic
+//@   atcall Ctx.Reset: resets-what-the-pool-gave: recv == last(@sync.(*Pool).Get) && arg1 == fctx
+//@   atcall @sync.(*Pool).Get: own-pool: p == app.pool
+//@   ensures is-the-reset-context: result == last(@sync.(*Pool).Get) && called(Ctx.Reset)
+//@   ensures fresh-for-this-request: typeis(result, *DefaultCtx) ==> as(result, *DefaultCtx) != nil && freshFor(as(result, *DefaultCtx), fctx) && ctxWF(as(result, *DefaultCtx))
+// (technical: the path buffers exist when AcquireCtx returns, so nothing allocated later can alias them)
+//@   ensures buffers-allocated: typeis(result, *DefaultCtx) ==> buffersAllocated(as(result, *DefaultCtx))
+
+// ---------------------------------------------------------------------------------------------
+// Binder pools (bind.go): a pooled binder carries only its configuration switch / decoder, which is set from
+// the app configuration before every use and cleared before it goes back ($1 = the deferred Reset+Put closure).
+// Not here: RespHeader (assumed in mw_C18.spec), Form and Query (assumed in zz_contracts_c12_verif.go) - same
+// shape; URI (its binder has no state). JSON/XML/CBOR: only "configured in this call" can be stated (Config() returns
+// a 40-field struct by value, opaque to the generator; c.Body() in between havocs the heap).
+// ---------------------------------------------------------------------------------------------
+//@ func (*Bind).Header
+//@   atcall @binder.(*HeaderBinding).Bind: configured-before-use: called(Ctx.App)
+//@   atcall @binder.(*HeaderBinding).Bind: configured-from-this-app: b.EnableSplitting == last(Ctx.App).config.EnableSplittingOnParsers
+//@ func (*Bind).Header$1
+//@   atcall @binder.PutToThePool: pool-invariant: !binder.EnableSplitting
+//@ func (*Bind).Cookie
+//@   atcall @binder.(*CookieBinding).Bind: configured-before-use: called(Ctx.App)
+//@   atcall @binder.(*CookieBinding).Bind: configured-from-this-app: b.EnableSplitting == last(Ctx.App).config.EnableSplittingOnParsers
+//@ func (*Bind).Cookie$1
+//@   atcall @binder.PutToThePool: pool-invariant: !binder.EnableSplitting
+//@ func (*Bind).JSON
+//@   atcall @binder.(*JSONBinding).Bind: configured-from-this-app: b.JSONDecoder != nil ==> called((*App).Config)
+//@ func (*Bind).JSON$1
+//@   atcall @binder.PutToThePool: pool-invariant: binder.JSONDecoder == nil
+//@ func (*Bind).XML
+//@   atcall @binder.(*XMLBinding).Bind: configured-from-this-app: b.XMLDecoder != nil ==> called(Ctx.App)
+//@ func (*Bind).XML$1
+//@   atcall @binder.PutToThePool: pool-invariant: binder.XMLDecoder == nil
+//@ func (*Bind).CBOR
+//@   atcall @binder.(*CBORBinding).Bind: configured-from-this-app: b.CBORDecoder != nil ==> called((*App).Config)
+//@ func (*Bind).CBOR$1
+//@   atcall @binder.PutToThePool: pool-invariant: binder.CBORDecoder == nil
+
+// ---------------------------------------------------------------------------------------------
+// Route parameters (the contract of (*DefaultCtx).Params lives in zz_contracts_c06_verif.go, clause
+// [C05] value-of-this-match: the result is "", the caller's default, or the non-empty value of a slot
+// i < len(c.route.Params) of the matched route - slots that Route.match wrote for THIS request; c.values is
+// therefore exempt from Reset/release)
+// ---------------------------------------------------------------------------------------------
+// (defaultString is contracted in zz_contracts_c07_verif.go: value-or-default.)
